@@ -21,7 +21,8 @@ type c18Txn struct {
 }
 
 type c18X struct {
-	Txns []c18Txn
+	Txns  []c18Txn
+	Fault int // 0 none; the conversation is broken off: 1 Server.Close, 2 backend panic in one delivery, 3 failing reply writes, 4 a reply write blocked for ever
 }
 
 func genC18(t *Tape, tier string) *Scenario {
@@ -101,6 +102,28 @@ func genC18(t *Tape, tier string) *Scenario {
 	sc.BE.Conns = []ConnBackendPlan{cp}
 	cs := ConnScript{Lat: drawLat(t), LatBack: drawLat(t), Client: cl}
 	cs.defaults()
+	slow := false
+	for _, tx := range x.Txns {
+		slow = slow || tx.Slow
+	}
+	if !slow && t.Chance(1, 8) {
+		// fault stratum: the conversation is broken off somewhere; the client may report
+		// anything but a delivery the backend did not make
+		x.Fault = 1 + t.Intn(4)
+		switch x.Fault {
+		case 1:
+			sc.Admin = []AdminStep{{At: Dur(t.Intn(80)) * 100 * time.Microsecond, Kind: aClose}}
+		case 2:
+			k := t.Intn(len(sc.BE.Conns[0].Data))
+			sc.BE.Conns[0].Data[k].V = Verdict{Kind: vPanic, Msg: "in LMTPData"}
+			sc.BE.Conns[0].Data[k].PanicWhen = t.Intn(4)
+		case 3:
+			cs.SrvFaults.FailWriteAt = 1 + t.Intn(4+6*ntx)
+		default:
+			cs.SrvFaults.BlockWriteAt = 1 + t.Intn(4+6*ntx)
+			sc.Srv.WriteTO = 0
+		}
+	}
 	sc.Conns = []ConnScript{cs}
 	sc.Strata = []string{fmt.Sprintf("txns%d/cb%v", ntx, cb)}
 	return sc
@@ -114,6 +137,59 @@ func checkC18(sc *Scenario, h *History) []Violation {
 		return []Violation{{Rule: "C18.harness", Detail: "client did not run"}}
 	}
 	res := ch.Client.Results
+	if x.Fault > 0 {
+		// Only this is judged: a recipient reported as delivered is one whose delivery the
+		// backend completed with that outcome, and no call outlasts the client's time limits.
+		evs := dataEvents(h, 0)
+		for ti, tx := range x.Txns {
+			if tx.DataOp >= len(res) {
+				break
+			}
+			d := res[tx.DataOp]
+			var claimed []int // indexes of accepted recipients reported as delivered
+			if tx.UseCb {
+				for _, s := range d.Statuses {
+					for i, r := range tx.Accepted {
+						if s == r+"=250" {
+							claimed = append(claimed, i)
+						}
+					}
+				}
+			} else if d.Begin != 0 && !d.Skipped && d.DataErr == "" && d.WriteErr == "" && d.Err == "" {
+				for i := range tx.Accepted {
+					claimed = append(claimed, i)
+				}
+			}
+			prior := false
+			for i := 0; i < tx.DataOp; i++ {
+				if res[i].Err != "" && !res[i].IsSMTP {
+					prior = true // an earlier call failed without an answer: client and server are out of step
+				}
+			}
+			for _, i := range claimed {
+				ok := ti < len(evs) && evs[ti].Done && evs[ti].SawEOF && !evs[ti].Panicked && !prior && tx.Codes[i] == 250
+				if !ok && ti < len(evs) && !prior {
+					// a status the backend set explicitly before it panicked or was cut off stands
+					for _, st := range evs[ti].StatusSet {
+						if st == tx.Accepted[i]+"=ok" {
+							ok = true
+						}
+					}
+				}
+				if !ok {
+					out = append(out, Violation{Rule: "C18.false-success", Detail: fmt.Sprintf("transaction %d: the conversation was broken off (fault %d) but the client reported recipient %s as delivered (Close=%q statuses=%v)", ti, x.Fault, tx.Accepted[i], d.Err, d.Statuses), Witness: fmt.Sprintf("txn=%d fault=%d cb=%v", ti, x.Fault, tx.UseCb)})
+					return out
+				}
+			}
+		}
+		for i, r := range res {
+			if r.Begin != 0 && r.End-r.Begin > int64(18*time.Minute) {
+				out = append(out, Violation{Rule: "C18.hang", Detail: fmt.Sprintf("client op %d (%s) took %v of fake time over a broken conversation", i, opNames[r.Kind], time.Duration(r.End-r.Begin)), Witness: fmt.Sprintf("fault=%d", x.Fault)})
+				break
+			}
+		}
+		return out
+	}
 	for ti, tx := range x.Txns {
 		wit := fmt.Sprintf("txn=%d of %d rcpts=%v codes=%v cb=%v", ti, len(x.Txns), tx.Rcpts, tx.Codes, tx.UseCb)
 		v := func(rule, format string, a ...interface{}) {
@@ -168,6 +244,9 @@ func classifyC18(sc *Scenario, h *History, st *Stats) string {
 	if len(x.Txns) > 1 {
 		st.Probes["second_or_later_transaction"]++
 	}
+	if x.Fault > 0 {
+		st.Faults["conversation_broken_off_"+[]string{"", "by_Server.Close", "by_backend_panic", "by_failing_reply_write", "by_blocked_reply_write"}[x.Fault]]++
+	}
 	var key []string
 	for _, tx := range x.Txns {
 		if len(tx.Rcpts) > len(tx.Accepted) {
@@ -212,7 +291,7 @@ func init() {
 		Real:        []string{"smtp.Client (NewClientLMTP, Mail, Rcpt, LMTPData, Data, dataCloser.Close, Noop, Quit)", "smtp.Server in LMTP mode, handleDataLMTP, statusCollector", "net/textproto"},
 		Stub:        []string{"net.Listener (SimListener)", "net.Conn (SimConn)", "Backend/LMTPSession (SimBackend)", "clock (synctest): a Close that waits for replies that never come costs 12 fake minutes and is detected as such"},
 		Assumptions: []string{"'Close returns once exactly those replies have been read' is judged as: within one fake minute, and the following NOOP gets its own reply"},
-		Required:    []string{"second_or_later_transaction", "recipient_refused_after_DATA", "recipient_refused_at_RCPT", "per_recipient_reply_later_than_CommandTimeout", "message_produced_slower_than_CommandTimeout"},
+		Required:    []string{"second_or_later_transaction", "recipient_refused_after_DATA", "recipient_refused_at_RCPT", "per_recipient_reply_later_than_CommandTimeout", "message_produced_slower_than_CommandTimeout", "conversation_broken_off_by_Server.Close", "conversation_broken_off_by_backend_panic", "conversation_broken_off_by_failing_reply_write", "conversation_broken_off_by_blocked_reply_write"},
 		QuickRuns:   120000, ThoroughRuns: 2000000,
 	})
 }
